@@ -485,6 +485,9 @@ pub trait Scheme: 'static + Sized {
     fn vk_variants(_vk: &Vk<Self>, _seed: u64) -> Vec<(String, Vk<Self>)> {
         vec![]
     }
+    /// C12: further serializable artefacts of the scheme that are not reachable through the trait
+    #[cfg(feature = "full")]
+    fn io_extra(_ctx: &mut crate::props::c12::IoCtx, _sess: &crate::session::Sess<Self>) {}
     /// sum_i coeff_i * commitment_i for the schemes whose LC path is homomorphic (None otherwise)
     #[cfg(feature = "full")]
     fn combine_comms(_terms: &[(Self::F, &Comm<Self>)]) -> Option<Comm<Self>> {
@@ -1040,6 +1043,30 @@ where
     const FAMILY: Family = Family::Kzg10;
     fn name() -> String {
         format!("kzg10-{}", E::CURVE)
+    }
+    #[cfg(feature = "full")]
+    fn io_extra(ctx: &mut crate::props::c12::IoCtx, sess: &crate::session::Sess<Self>) {
+        use ark_poly_commit::kzg10::{Powers, KZG10};
+        use ark_serialize::{CanonicalDeserialize, Compress, Validate};
+        // the hand-written (de)serializers of the raw scheme: Powers and the bare verifier key
+        let powers = sess.prover.ck.powers();
+        crate::props::c12::io_check(ctx, "kzg10-powers", &powers, 60);
+        crate::props::c12::io_check(ctx, "kzg10-verifier-key", &sess.verifier.vk.vk, 61);
+        // committing with reloaded Powers gives the same (non-hiding) commitment
+        for c in [Compress::Yes, Compress::No] {
+            let b = crate::session::to_bytes(&powers, c);
+            if let Ok(p2) = Powers::<E>::deserialize_with_mode(&b[..], c, Validate::Yes) {
+                for (i, lp) in sess.prover.polys.iter().enumerate().filter(|(_, lp)| lp.hiding_bound().is_none()).take(1) {
+                    if let Ok((cm, _)) = KZG10::<E, UPoly<E::ScalarField>>::commit(&p2, lp.polynomial(), None, None) {
+                        if crate::session::to_bytes(&cm, Compress::Yes) != crate::session::to_bytes(sess.prover.comms[i].commitment(), Compress::Yes) {
+                            ctx.res.violations.push(crate::props::common::viol(ctx.scn, "io-contract", "decision", "kzg10-powers", "commitment computed with reloaded Powers differs from the one computed with the originals".into()));
+                        }
+                    }
+                }
+            } else {
+                ctx.res.violations.push(crate::props::common::viol(ctx.scn, "io-contract", "roundtrip", "kzg10-powers", "Powers do not reload".into()));
+            }
+        }
     }
     #[cfg(feature = "full")]
     fn proof_variants(p: &Proof<Self>, seed: u64) -> Vec<(String, Proof<Self>)> {
